@@ -62,7 +62,7 @@ type Account struct {
 	Addr      []byte // 32 bytes
 	Black     bool
 	Grey      bool
-	N         uint32 // required signatures (multisig policy); 0/1 for ordinary accounts
+	ReqN      uint32 // required signatures (multisig policy)
 	Multisig  bool
 	UserID    string
 	SignedTx  []string
@@ -87,7 +87,7 @@ func NewAccount(id int, members ...*User) *Account {
 	}
 	sort.Slice(bin, func(i, j int) bool { return bytes.Compare(bin[i], bin[j]) < 0 })
 	h := sha3.Sum256(bytes.Join(bin, nil))
-	return &Account{ID: id, Members: members, Addr: h[:], N: uint32(len(members)), Multisig: len(members) > 1}
+	return &Account{ID: id, Members: members, Addr: h[:], ReqN: uint32(len(members)), Multisig: len(members) > 1}
 }
 
 // ---- ACL ----------------------------------------------------------------------
@@ -176,7 +176,7 @@ func (a *ACL) Invoke(args [][]byte) pb.Response {
 			Address: &fpb.SignedAddress{
 				Address:         &fpb.Address{Address: acc.Addr, UserID: acc.UserID, IsMultisig: acc.Multisig},
 				SignedTx:        acc.SignedTx,
-				SignaturePolicy: &fpb.SignaturePolicy{N: acc.N, ReplaceKeysSignedTx: acc.ReplaceTx},
+				SignaturePolicy: &fpb.SignaturePolicy{N: acc.ReqN, ReplaceKeysSignedTx: acc.ReplaceTx},
 			},
 			KeyTypes: kts,
 		}
